@@ -385,7 +385,46 @@ func c03Run(t *testing.T, c *evid.Collector) {
 		rec(0, 0)
 		b.st.Close()
 	}
-	c.Set("exhaustive_scope", fmt.Sprintf("key sets of size <= %v over 18 keys x 27 prefixes x delimiters x V1/V2; %d (backend,set) pairs enumerated: complete", maxSet, nsets))
+	// ---- keys with consecutive delimiters (length 4-6, beyond the alphabet enumeration above); the
+	// file system backends cannot store them
+	for ki, k := range kinds {
+		if k.IsFs() || (evid.Shards() > 1 && ki%evid.Shards() != evid.Shard()) {
+			continue
+		}
+		b := newC03Bucket(k)
+		u2 := []string{"a", "a/b", "a//a", "a//b", "a//b/a", "b//a"}
+		p2 := []string{"", "a", "a/", "a//", "a//b", "a//b/", "b", "b/", "b//"}
+		for mask := 1; mask < 1<<len(u2); mask++ {
+			var set []string
+			for i, key := range u2 {
+				if mask&(1<<i) != 0 {
+					set = append(set, key)
+				}
+			}
+			if len(set) > 3 {
+				continue
+			}
+			nsets++
+			if err := b.sync(set); err != nil {
+				report(c, "listing", dsc("setup-failed", "backend=%s cannot store key set %q: %v", k, set, err), c03Case{Backend: k, Keys: set})
+				break
+			}
+			for _, d := range []string{"", "/"} {
+				for _, p := range p2 {
+					if !c03InDomain(set, p, d) {
+						continue
+					}
+					for _, v2 := range []bool{false, true} {
+						ds, want := c03Check(b.st, "bk0", b.live, p, d, v2)
+						cs := c03Case{Backend: k, Keys: append([]string(nil), set...), Prefix: p, Delim: d, V2: v2}
+						record(cs, ds, want, len(set), true, "exhaustive-doubled-delimiter")
+					}
+				}
+			}
+		}
+		b.st.Close()
+	}
+	c.Set("exhaustive_scope", fmt.Sprintf("key sets of size <= %v over 18 keys x 27 prefixes x delimiters x V1/V2, plus (mem, bolt) sets of size <= 3 over 6 keys with consecutive delimiters x 9 prefixes; %d (backend,set) pairs enumerated: complete", maxSet, nsets))
 	c.Exhaustive(false)
 
 	// ---- random: richer keys, histories, delete markers
